@@ -68,10 +68,10 @@ fn run_case(kit: &Kit, rt: &tokio::runtime::Runtime, case: &Value, n: usize, tra
     );
     let start_cert = certs[start - 1].clone();
     let res = guarded(|| rt.block_on(verifier.verify_certificate_chain(start_cert)));
-    let (accepted, err) = match res {
-        Guarded::Done(Ok(())) => (json!(true), String::new()),
-        Guarded::Done(Err(e)) => (json!(false), format!("{e:#}").chars().take(120).collect()),
-        Guarded::Panic(m) => (json!("panic"), m.chars().take(120).collect()),
+    let (accepted, panicked, err) = match res {
+        Guarded::Done(Ok(())) => (true, false, String::new()),
+        Guarded::Done(Err(e)) => (false, false, format!("{e:#}").chars().take(120).collect()),
+        Guarded::Panic(m) => (false, true, m.chars().take(120).collect()),
     };
     let walk = provider.log.lock().unwrap().clone();
     // deviation class of the *real* walk: was a certificate checked against a served predecessor
@@ -87,16 +87,16 @@ fn run_case(kit: &Kit, rt: &tokio::runtime::Runtime, case: &Value, n: usize, tra
         }
         cur = *idx;
     }
-    let dev_following = accepted == json!(true) && following;
+    let dev_following = accepted && following;
     let proj: Vec<Value> = certs.iter().map(|c| kit.project(c)).collect();
-    if accepted == json!(true) {
+    if accepted {
         stats.accepted += 1;
     }
-    if accepted == json!("panic") {
+    if panicked {
         stats.panics += 1;
     }
     if let Some(p) = case.get("impl").and_then(|v| v.as_bool()) {
-        if json!(p) != accepted {
+        if p != accepted {
             stats.mismatch += 1;
         }
     }
@@ -106,7 +106,7 @@ fn run_case(kit: &Kit, rt: &tokio::runtime::Runtime, case: &Value, n: usize, tra
         "cls": case.get("cls").cloned().unwrap_or(json!("")),
         "certs": proj, "start": start,
         "walk": walk.iter().map(|(h, i)| json!([Kit::short(h), i])).collect::<Vec<_>>(),
-        "accepted": accepted, "err": err,
+        "accepted": accepted, "panicked": panicked, "err": err,
         "predicted": case.get("impl").cloned().unwrap_or(json!("none")),
         "dev_following": dev_following, "dev_cache_forged": false, "dev_cache_tainted": false,
     }));
